@@ -5,7 +5,7 @@ import vlib
 from vlib import Undecided
 
 # includes characters whose UTF-8 encodings share a lead byte (é C3A9 / ü C3BC) or a continuation byte (é C3A9 / ũ C5A9)
-CONCRETE = [ord(c) for c in "abZ7-q"] + [0xE9, 0xFC, 0x169, 0x171, 0x3B2, 0x2122, 0x6F22, 0x1F600, 0xE000, 0x10FFFF]
+CONCRETE = [ord(c) for c in "abZ7-q"] + [0xE9, 0xFC, 0x169, 0x171, 0x3B2, 0x2122, 0x6F22, 0x1F600, 0xE000, 0x10FFFF, 0x301]
 
 
 def tlc_universe(ctx, nu=3, maxlen=2):
@@ -157,6 +157,8 @@ CUSTOM_VARIANTS = [
     dict(allowChars=[0x1F600, 0x1F600, ord("z")], requireSets=[[0x1F600]], excludeChars=[ord("z")]),
     dict(requireSets=[[ord(c) for c in "abc"], [ord("a")]], allowChars=[ord(c) for c in "abcdef"]),     # nested required sets
     dict(requireSets=[[ord("7")], [0xE9, 0xFC]], allowChars=[0xFC, 0x169]),                           # shared UTF-8 bytes
+    dict(allowChars=[ord("a"), ord("b"), ord("e"), 0x301], excludeChars=[ord("e")]),                   # decomposed text: e + combining acute, e excluded
+    dict(allowChars=[ord("e"), ord("e"), 0x301, ord("o"), 0x308], requireSets=[[ord("e"), 0x301]], excludeChars=[0x301]),
 ]
 
 
@@ -194,6 +196,8 @@ def collision_sequences():
         (c(len=1, allowChars=o("ab "), requireSets=[o("a b")]), c(len=1, allowChars=o("ab "), requireSets=[o("a"), o("b")])),
         (c(len=3, allowChars=o("x y"), requireSets=[o("x y")]), c(len=3, allowChars=o("x y"), requireSets=[o("x"), o("y")])),
         (c(len=2, allowChars=o("a|b"), excludeChars=o("|")), c(len=2, allowChars=o("a"), excludeChars=o("b|"))),
+        (c(len=2, allowChars=o("abcd,"), requireSets=[o("ab,cd")]), c(len=2, allowChars=o("abcd,"), requireSets=[o("ab"), o("cd")])),
+        (c(len=3, allowChars=o("ab,"), requireSets=[o("a,b")]), c(len=3, allowChars=o("ab,"), requireSets=[o("a"), o("b")])),
         (c(len=4, allow=15, require=1), c(len=4, allow=15, exclude=16)),       # 16<<4 == 1<<8
         (c(len=5, allow=4, require=1), c(len=5, allow=4, exclude=16)),
         (c(len=700, allow=3, requireSets=[o("q")], allowChars=o("0123456789!@")), c(len=700, allow=3, requireSets=[o("z")], allowChars=o("0123456789.-"))),  # same |alphabet| and length
